@@ -242,7 +242,10 @@ class State:
         r = self.alloc()
         self.heap.c_dom = z3.Store(self.heap.c_dom, r, EMPTY_SET)
         self.heap.c_len = z3.Store(self.heap.c_len, r, z3.IntVal(0))
-        return sym.SRef(r, kind_ty)
+        w = sym.SRef(r, kind_ty)
+        from . import models
+        models.assume_kind(self, w)
+        return w
 
     # ---- events ----------------------------------------------------------------------------
     def log_event(self, name: str, args):
